@@ -3,10 +3,15 @@
    when it is used up the run is completed (main whenever it can run, else the spinner).  Theorems quantify over
    all schedules, all bodies (set_message / work / raise), all clocks and intervals. *)
 From Coq Require Import Lia.
-From Clikit Require Import Base.Prelude Base.Res Base.Term Model.Spinner Proofs.TermLemmas Proofs.SpinnerLemmas.
+From Clikit Require Import Base.Prelude Base.Res Base.Term Model.Spinner Proofs.TermLemmas Proofs.SpinnerLemmas
+  Proofs.SpinnerHistoryLemmas.
 
 (* Leaving the automatic mode always stops and joins the spinner: both threads have ended and the stop flag is set;
-   whether the block was left by an exception is decided by the body alone. *)
+   whether the block was left by an exception is decided by the body alone.
+   "Every body": ARaise is an exit of the body by an exception that auto()'s handler catches.  With the proposed repair
+   (proposed-fixes/c19-auto-baseexception: `except BaseException`) that is every exception.  The UNCHANGED code catches
+   `(Exception, KeyboardInterrupt)` only: a body ended by SystemExit or GeneratorExit is outside this theorem there, and
+   the code does violate the clause on it (thread alive, flag unset - see spinner_runs_until_stopped below). *)
 Theorem auto_always_stops_spinner : forall t0 iv sm em acts sched,
   let f := run_auto t0 iv sm em acts sched in
   all_done f = true /\ stop f = true /\ mphase_ f = MFinished (has_raise acts).
@@ -31,19 +36,45 @@ Theorem normal_exit_screen : forall w t0 iv sm em acts sched,
 Proof. intros. apply normal_exit_screen_lemma; assumption. Qed.
 Print Assumptions normal_exit_screen.
 
-(* The terminal line never shows a mixture of two frames: after ANY prefix of the write history, every row of the
-   screen is empty or exactly one frame (one indicator value and one message). *)
+(* The terminal line never shows a mixture of two frames.  After ANY prefix of the write history the screen is given
+   exactly by screen_of (a frame replaces the current line, a line break keeps it and opens an empty one) ... *)
+Theorem screen_at_every_point : forall w t0 iv sm em acts sched n,
+  1 <= w -> fits w sm -> fits w em -> Forall (act_ok (fits w)) acts ->
+  let ws := map snd (firstn n (writes (run_auto t0 iv sm em acts sched))) in
+  rows (feed w term_init (flat_map emits_of_write ws)) = screen_of [] [] ws.
+Proof. intros. apply screen_at_every_point_lemma; assumption. Qed.
+Print Assumptions screen_at_every_point.
+(* ... hence every row is empty or IS one of the frames written so far, whole (not "some frame of some message": a
+   residue of a longer frame or two frames glued together would have to be a frame some thread wrote in one piece),
+   and the current line is the most recent write: that frame, or empty after the line break. *)
 Theorem line_never_mixed : forall w t0 iv sm em acts sched n,
   1 <= w -> fits w sm -> fits w em -> Forall (act_ok (fits w)) acts ->
-  Forall ok_row (rows (feed w term_init (flat_map (fun x => emits_of_write (snd x))
-                                                  (firstn n (writes (run_auto t0 iv sm em acts sched)))))).
-Proof. intros. apply line_never_mixed_lemma; assumption. Qed.
+  let ws := map snd (firstn n (writes (run_auto t0 iv sm em acts sched))) in
+  let scr := rows (feed w term_init (flat_map emits_of_write ws)) in
+  Forall (fun r => r = [] \/ In (Some r) ws) scr /\ exists R, scr = R ++ [latest [] ws].
+Proof. intros. apply line_never_mixed_strong_lemma; assumption. Qed.
 Print Assumptions line_never_mixed.
-(* ... because every single stream write is a whole frame (erase and text in one write) or a line break. *)
-Theorem every_write_is_whole : forall t0 iv sm em acts sched,
-  Forall (fun w => whole (snd w)) (writes (run_auto t0 iv sm em acts sched)).
-Proof. exact all_writes_whole. Qed.
+(* What the frames written are.  The caller's thread: its frames show, in order, exactly the messages set - the start
+   message, every set_message up to a raise, and the end message on a normal exit ... *)
+Theorem caller_frames_show_the_messages_set : forall t0 iv sm em acts sched,
+  mmsgs (writes (run_auto t0 iv sm em acts sched)) = sm :: until_raise acts ++ (if has_raise acts then [] else [em]).
+Proof. exact caller_frames_lemma. Qed.
+Print Assumptions caller_frames_show_the_messages_set.
+(* ... and EVERY write, wherever the history is cut, is one indicator value and one message in a single stream write
+   (erase and text together); a spinner frame shows a message that the caller had set when the spinner formatted it:
+   the message of a caller frame written before it, or of the caller's next frame after it (message set, its own
+   frame still on the way to the stream).  Never a message not yet set, never a text that no one set. *)
+Theorem every_write_is_whole : forall t0 iv sm em acts sched pre b x post,
+  writes (run_auto t0 iv sm em acts sched) = pre ++ (b, Some x) :: post ->
+  exists c m, x = frame c m /\ In (indicator c) values /\
+    (b = true -> In m (mmsgs pre) \/ firstm post None = Some m).
+Proof. intros t0 iv sm em acts sched. exact (frames_show_set_messages_lemma t0 iv sm em acts sched). Qed.
 Print Assumptions every_write_is_whole.
+(* Why every way out of the block has to set the stop flag: while it is unset the spinner thread never ends, whatever
+   the clock does (n further steps of the spinner, any n). *)
+Theorem spinner_runs_until_stopped : forall n s, spinning s -> spinning (Nat.iter n step_spinner s).
+Proof. exact spinner_never_ends_unstopped. Qed.
+Print Assumptions spinner_runs_until_stopped.
 
 (* Manual mode: redraws by advance() are at least one interval apart ... *)
 Theorem manual_throttle : forall iv ops t0 m, (0 <= iv)%Z ->
@@ -51,17 +82,40 @@ Theorem manual_throttle : forall iv ops t0 m, (0 <= iv)%Z ->
   Forall (fun t => t0 + iv <= t)%Z (adv_times iv (manual_init t0 iv m) t0 ops).
 Proof. intros iv ops t0 m H. destruct (adv_times_spaced iv H ops (manual_init t0 iv m) t0) as [F S]. split; assumption. Qed.
 Print Assumptions manual_throttle.
-(* ... and every frame is one indicator value followed by the message current at that time. *)
-Theorem manual_frames_wf : forall iv ops t0 m,
+(* adv_times are exactly the times at which advance() draws: an advance at time now adds one frame iff the interval is over *)
+Theorem manual_advance_draws_iff_interval_over : forall iv s now,
+  m_frames (manual_step iv s now MAdvance) =
+  if (now <? m_upd s)%Z then m_frames s else m_frames s ++ [Some (frame (S (m_cur s)) (m_msg s))].
+Proof. exact advance_redraws. Qed.
+Print Assumptions manual_advance_draws_iff_interval_over.
+(* ... and every frame is one indicator value followed by the message current at that time: the frames are append-only;
+   the operation after any history ops1 adds nothing (an advance before the interval is over), or the frame of the
+   state it leaves - position m_cur, message m_msg - (and the line break, for finish); and that message is the one most
+   recently set (last_set: by start, set_message or finish). *)
+Theorem manual_frames_wf : forall iv t0 m ops1 dt o ops2,
+  let now1 := fold_left (fun t x => t + fst x)%Z ops1 t0 in
+  let s1 := manual_run iv (manual_init t0 iv m) t0 ops1 in
+  let s2 := manual_step iv s1 (now1 + dt)%Z o in
+  let f := manual_run iv (manual_init t0 iv m) t0 (ops1 ++ (dt, o) :: ops2) in
+  m_msg s2 = last_set m (ops1 ++ [(dt, o)]) /\
+  exists new later, m_frames f = m_frames s1 ++ new ++ later /\
+    (new = [] /\ o = MAdvance /\ (now1 + dt < m_upd s1)%Z
+     \/ new = [Some (frame (m_cur s2) (m_msg s2))]
+     \/ new = [Some (frame (m_cur s2) (m_msg s2)); None] /\ exists m' r, o = MFinish m' r).
+Proof. exact manual_history_lemma. Qed.
+Print Assumptions manual_frames_wf.
+(* the first frame is the start message at position 0, and the last frame of any history shows the current state *)
+Theorem manual_last_frame_current : forall iv ops t0 m,
   let f := manual_run iv (manual_init t0 iv m) t0 ops in
-  Forall mwhole (m_frames f) /\
+  m_frames (manual_init t0 iv m) = [Some (frame 0 m)] /\
   (exists pre, m_frames f = pre ++ [Some (frame (m_cur f) (m_msg f))] \/ m_frames f = pre ++ [Some (frame (m_cur f) (m_msg f)); None]) /\
+  m_msg f = last_set m ops /\
   (forall c, In (indicator c) values).
 Proof.
   intros. destruct (manual_run_MI iv ops (manual_init t0 iv m) t0 (manual_init_MI t0 iv m)) as [H1 H2].
-  split; [exact H1|]. split; [exact H2|]. exact indicator_in_values.
+  split; [reflexivity|]. split; [exact H2|]. split; [apply manual_run_msg|exact indicator_in_values].
 Qed.
-Print Assumptions manual_frames_wf.
+Print Assumptions manual_last_frame_current.
 
 (* the premises are satisfiable and the outcomes are not vacuous *)
 Example nonvacuous :
@@ -151,3 +205,39 @@ Example fine_nonvacuous :
   let f := run_auto2 c 0 [115%N] body ([false] ++ repeat true 12 ++ [false] ++ repeat true 9 ++ [false]) in
   has_raise body = false /\ existsb fst (writes2 f) = true /\ 5 <= length (writes2 f) /\ skips2 f = 0.
 Proof. vm_compute. repeat split; lia. Qed.
+(* what the strengthened statements exclude (the earlier ones did not): a line holding two frames, or the rest of a
+   longer frame, is not a screen of any write history unless some thread wrote exactly that text as one frame *)
+Example mixture_is_excluded :
+  let body := [ASet [120%N]; AWork 250; ASet [121%N]] in
+  let f := run_auto 0 100 [104%N] [100%N] body [true; true; false; true; true; false] in
+  let ws := map snd (writes f) in
+  ~ In (Some (frame 1 [104%N] ++ frame 2 [120%N])) ws /\ ~ In (Some (frame 2 [120%N] ++ [104%N])) ws /\
+  mmsgs (writes f) = [[104%N]; [120%N]; [121%N]; [100%N]].
+Proof.
+  vm_compute. repeat split; intros K; repeat (destruct K as [K|K]; [discriminate K|]); exact K.
+Qed.
+(* a spinner frame that shows the message of the caller's NEXT frame (set, not yet written): the second disjunct of
+   every_write_is_whole is needed *)
+Example spinner_shows_pending_message :
+  let f := run_auto 0 0 [104%N] [100%N] [ASet [120%N]] [true; true] in
+  exists pre post, writes f = pre ++ (true, Some (frame 1 [120%N])) :: post /\ ~ In [120%N] (mmsgs pre) /\ firstm post None = Some [120%N].
+Proof.
+  exists [(false, Some (frame 0 [104%N]))], [(false, Some (frame 0 [120%N])); (false, Some (frame 0 [100%N])); (false, None)].
+  split; [vm_compute; reflexivity|]. split; [|vm_compute; reflexivity]. vm_compute. intros [K|[]]. discriminate K.
+Qed.
+Example spinning_nonvacuous : spinning (init 0 100 [104%N] [100%N] [AWork 5]).
+Proof. right. vm_compute. split; eauto. Qed.
+Example manual_nonvacuous :
+  let ops1 := [(150, MAdvance); (10, MSetMessage [120%N])]%Z in
+  let f := manual_run 100 (manual_init 0 100 [104%N]) 0 (ops1 ++ [(20, MAdvance); (200, MAdvance); (0, MFinish [100%N] true)])%Z in
+  m_frames f = [Some (frame 0 [104%N]); Some (frame 1 [104%N]); Some (frame 1 [120%N]); Some (frame 2 [120%N]); Some (frame 0 [100%N]); None]
+  /\ last_set [104%N] ops1 = [120%N].
+Proof. vm_compute. split; reflexivity. Qed.
+(* the width hypotheses of the screen theorems hold for that run on a 20-column terminal *)
+Example screen_hypotheses_hold :
+  1 <= 20 /\ fits 20 [104%N] /\ fits 20 [100%N] /\ Forall (act_ok (fits 20)) [ASet [120%N]; AWork 250; ASet [121%N]].
+Proof. unfold fits. cbn. repeat split; try lia. repeat constructor; cbn; lia. Qed.
+Example screen_instance :
+  let f := run_auto 0 100 [104%N] [100%N] [ASet [120%N]; AWork 250; ASet [121%N]] [true; true; false; true; true; false] in
+  rows (feed 20 term_init (flat_map emits_of_write (map snd (writes f)))) = [frame 0 [100%N]; []].
+Proof. vm_compute. reflexivity. Qed.
